@@ -99,6 +99,28 @@ def fill (t : Table v) (x : v) : Table v :=
 /-- `items()` / `to_dict()`: (key, value) pairs in bucket order -/
 def items (t : Table v) : List (Int × v) := t.buckets.flatten.zip (filled t).flatten
 
+/-! ### whole-table functions: `zeros_like` / `ones_like`, `+`, `+=`, `==` -/
+
+/-- `np.zeros_like(table)` / `np.ones_like(table)`: a table over the same key rows holding one shared value -/
+def likeWith (t : Table v) (x : v) : Table v := { t with values := .inl x }
+
+/-- `table += number`: the shared value, or every stored value, grows by `x` -/
+def addNum (t : Table Int) (x : Int) : Table Int :=
+  match t.values with
+  | .inl s => { t with values := .inl (s + x) }
+  | .inr vals => { t with values := .inr (vals.map (·.map (· + x))) }
+
+/-- `t + u` / `t += u`: refused unless the key rows are the same rows (`_keys.equals`); values are added position by
+position (two shared values stay a shared value) -/
+def addTable (t u : Table Int) : Option (Table Int) :=
+  if t.buckets ≠ u.buckets then none else
+  match t.values, u.values with
+  | .inl a, .inl b => some { t with values := .inl (a + b) }
+  | _, _ => some { t with values := .inr (List.zipWith (List.zipWith (· + ·)) (filled t) (filled u)) }
+
+/-- `t == u` for tables over the same key rows: all stored values agree -/
+def tableEq (t u : Table Int) : Bool := decide (t.buckets = u.buckets) && decide ((filled t).flatten = (filled u).flatten)
+
 /-- `Counter.count(samples)`:
 samples whose bucket is empty are dropped; the others are compared with their bucket; every hit is
 a flat position `starts[bucket] + offset` in the key buffer; `bincount` of the hits is added -/
